@@ -33,6 +33,9 @@ func runC01(c *Ctx) {
 	c08FreshDecodeTarget(c, "C01.8")
 	c11SplitArithmetic(c, "C01.9")
 	ruleStaleDerived(c, "C01.10")
+	ruleDescentAgreement(c, "C01.11")
+	ruleListIterationStable(c, "C01.12")
+	c08Literals(c, "C01.13")
 }
 
 // leafCellSource: expression `S.field` where S has type *leafCell; returns key of S and the field name.
@@ -382,7 +385,21 @@ func c01RootRelocation(c *Ctx, rule string) {
 					return true
 				}
 				if len(f.Calls(ifs.Body, false, "storage.RelationService.updatePageTable", "storage.*.setPageTableRoot")) == 0 {
-					return true
+					// a helper that reaches the catalog update counts (wrapper one or more calls deep)
+					via := false
+					for _, cs := range w.CG().Sites[f] {
+						if cs.Call.Pos() < ifs.Body.Pos() || cs.Call.End() > ifs.Body.End() {
+							continue
+						}
+						for t := range w.CG().Reach(cs.Targets...) {
+							if t.Name == "storage.(*RelationService).updatePageTable" || strings.HasSuffix(t.Name, ").setPageTableRoot") {
+								via = true
+							}
+						}
+					}
+					if !via {
+						return true
+					}
 				}
 				if rootChangedCond(f, body.Node, ifs.Cond) {
 					handlers = append(handlers, ifs)
@@ -435,8 +452,18 @@ func c01RootRelocation(c *Ctx, rule string) {
 			// returned var: the ident in success returns
 			flows := false
 			for _, r := range f.Graph().Returns() {
-				if len(r.Results) == 0 {
-					continue
+				if len(r.Results) == 0 || !f.Graph().ReturnMayBeNil(r) {
+					continue // only batches handed back on a success path count
+				}
+				if call, ok := ast.Unparen(r.Results[0]).(*ast.CallExpr); ok {
+					// return append(batch, logs...), err
+					if fid, ok := call.Fun.(*ast.Ident); ok && fid.Name == "append" {
+						for _, a := range call.Args {
+							if aid, ok := ast.Unparen(a).(*ast.Ident); ok && f.ObjOf(aid) == res {
+								flows = true
+							}
+						}
+					}
 				}
 				if id, ok := ast.Unparen(r.Results[0]).(*ast.Ident); ok {
 					B := f.ObjOf(id)
